@@ -102,6 +102,8 @@ class BEDPrinter(AbstractAssignmentPrinter):
                  gzipped=False):
         AbstractAssignmentPrinter.__init__(self, output_file_name, params, assignment_checker, gzipped=gzipped)
         self.print_corrected = print_corrected
+        # alignments of reads having several assignment records whose line is already written
+        self.printed_multimappers = set()
         self.output_file.write("#chrom\tchromStart\tchromEnd\tname\tscore\tstrand\tthickStart\tthickEnd\titemRgb\tblockCount\tblockSizes\tblockStarts\n")
 
     def add_read_info(self, read_assignment):
@@ -114,6 +116,15 @@ class BEDPrinter(AbstractAssignmentPrinter):
         strand = read_assignment.mapped_strand
         chr_id = read_assignment.gene_info.chr_id
         exon_blocks = read_assignment.corrected_exons if self.print_corrected else read_assignment.exons
+
+        if read_assignment.multimapper:
+            # a read cluster that is split into sub-regions yields one assignment record per sub-region for an alignment
+            # spanning the cut; when the sub-regions contain different genes both records are kept by the multimapper
+            # resolution - the alignment itself is still written once
+            alignment_key = (read_assignment.read_id, chr_id, tuple(read_assignment.exons))
+            if alignment_key in self.printed_multimappers:
+                return
+            self.printed_multimappers.add(alignment_key)
 
         self.output_file.write("%s\t%d\t%d\t%s\t0\t%s\t%d\t%d\t%d\t%d\t%s\t%s\n" %
                            (chr_id, exon_blocks[0][0] - 1, exon_blocks[-1][1],
